@@ -5,7 +5,7 @@ Import ListNotations.
 
 Definition ident := N.
 
-Inductive binop := Add | Sub | Mul | Lt | Le | Gt | Ge | Eq | Ne | And | Or | Min | Max.
+Inductive binop := OAdd | OSub | OMul | OLt | OLe | OGt | OGe | OEq | ONe | OAnd | OOr | OMin | OMax.
 
 Inductive expr : Type :=
 | ELit (z : Z)
@@ -35,13 +35,13 @@ Definition b2z (b : bool) : Z := if b then 1%Z else 0%Z.
 (* vm.rs binop!/binop_bool!/binop_bool_compose! on integer-valued f64 *)
 Definition eval_binop (op : binop) (a b : Z) : Z :=
   match op with
-  | Add => (a + b)%Z | Sub => (a - b)%Z | Mul => (a * b)%Z
-  | Lt => b2z (a <? b)%Z | Le => b2z (a <=? b)%Z
-  | Gt => b2z (a >? b)%Z | Ge => b2z (a >=? b)%Z
-  | Eq => b2z (a =? b)%Z | Ne => b2z (negb (a =? b)%Z)
-  | And => b2z ((0 <? a)%Z && (0 <? b)%Z)
-  | Or => b2z ((0 <? a)%Z || (0 <? b)%Z)
-  | Min => Z.min a b | Max => Z.max a b
+  | OAdd => (a + b)%Z | OSub => (a - b)%Z | OMul => (a * b)%Z
+  | OLt => b2z (a <? b)%Z | OLe => b2z (a <=? b)%Z
+  | OGt => b2z (a >? b)%Z | OGe => b2z (a >=? b)%Z
+  | OEq => b2z (a =? b)%Z | ONe => b2z (negb (a =? b)%Z)
+  | OAnd => b2z ((0 <? a)%Z && (0 <? b)%Z)
+  | OOr => b2z ((0 <? a)%Z || (0 <? b)%Z)
+  | OMin => Z.min a b | OMax => Z.max a b
   end.
 
 Definition SAMPLE_RATE : Z := 48000%Z.
